@@ -145,6 +145,17 @@ def probe():
         def _(n): raise ValueError("body")
         for arg in (0, 1, 4, 99, 70):
             check(f"dispatch fact({arg}) [{tag}]", fact, arg)
+        # a dispatch call made from inside a validation block of another dispatch call (a guard that itself dispatches)
+        @deal.dispatch
+        def size(x): raise NotImplementedError
+        @size.register
+        @deal.pre(lambda x: isinstance(x, str))
+        def _(x): return len(x)
+        @size.register
+        @deal.pre(lambda x: isinstance(x, list) and all(size(i) >= 0 for i in x))
+        def _(x): return sum(size(i) for i in x)
+        for arg in ("ab", ["a", "bc"], [["a"], "b"], 3, [3]):
+            check(f"nested dispatch size({arg!r}) [{tag}]", size, arg)
         # test cases: run (passing and failing), iteration
         @deal.pre(lambda x: x > 0)
         @deal.has()
